@@ -731,7 +731,10 @@ def whole_jobs(ctx):
         else:
             # six simulation numbers (crosses the batch-of-five boundary) on a small configuration
             cfg = W.make_config(ctx.rng, n_sims=6, ndays=120, n_sites=4)
-        if len(cfg["programs"]) < 4:
+        if j % 2 == 1:
+            # the six-simulation configuration runs three programs (cost: 6 x programs x 2 modes)
+            cfg["programs"] = [p for p in cfg["programs"] if p["name"] != "P_fix"]
+        elif len(cfg["programs"]) < 4:
             cfg["programs"].append({"name": "P_fix", "methods": ["FIX", "OGI_FU2"]})
         if j % 4 == 0:
             # sites file with `<method>_site_deployment` columns: the mobile component-level method OGI, the
@@ -752,7 +755,7 @@ def whole_jobs(ctx):
         # more programs than 4 x pool processes: Pool.starmap then sends several program tasks to a
         # worker in one chunk, i.e. pickled together (they share one unpickled infrastructure object)
         cfg3 = dict(cfg)
-        cfg3["n_sims"] = 1 if j % 2 == 0 else 2
+        cfg3["n_sims"] = 1 if (j % 2 == 0 or ctx.quick) else 2
         cfg3["programs"] = list(cfg["programs"]) + [{"name": "P_OGIb", "methods": ["OGI"]},
                                                      {"name": "P_airb", "methods": ["AIR", "OGI_FU"]}]
         jobs.append((cfg3, False, 1))
@@ -777,16 +780,16 @@ def whole_jobs(ctx):
         for k, site in enumerate(cfg["sites"]):
             site["id"] = odd_ids[k]
         jobs.append((cfg, True, 1, "debug"))
-        if not ctx.quick or j == 1:
+        if not ctx.quick:
             jobs.append((dict(cfg), False, 2, "pool"))
     # zero repair and reporting delays + pre-simulation emissions at the exact boundary: single-emission repairable
     # sources with a high production rate, so that many sources carry an emission that began exactly `duration` days
     # before the first day (the oldest date the generator can produce); OGI visits every site on the first day
     # (monthly surveys, several crews, short surveys) and its tags are repaired in the same daily update.  Every
     # program's records are compared with the scenario and with every other program, natural end date included.
-    cfg = W.make_config(ctx.rng, n_sims=ctx.pick(1, 2), granular=False, n_sites=4, start=[2024, 1, 1], end=[2024, 2, 29],
+    cfg = W.make_config(ctx.rng, n_sims=ctx.pick(1, 2), granular=False, n_sites=5, start=[2024, 1, 1], end=[2024, 2, 29],
                         pre_sim_emissions=True, repair_delay=[0], consider_weather=False, daylight=None,
-                        rep={"epr": 0.5, "duration": 30, "multi": False},
+                        rep={"epr": 1.0, "duration": 30, "multi": False},   # split over the components of a group
                         nonrep={"epr": 0.0625, "duration": 20, "multi": True})
     cfg["methods"]["OGI"].update(reporting_delay=0, crew_count=4, survey_time=5, surveys_per_year=12,
                                  months=list(range(1, 13)), spatial=1.0, mdl=0.125, consider_daylight=False,
@@ -811,7 +814,7 @@ def whole_stage(ctx):
     from harness import wholerun as W
 
     jobs = whole_jobs(ctx)
-    with cf.ThreadPoolExecutor(max_workers=6) as ex:
+    with cf.ThreadPoolExecutor(max_workers=8) as ex:
         results = list(ex.map(lambda j: W.run_config(j[0], debug=j[1], processes=j[2], trace=False), jobs))
     ok_modes = {"debug": 0, "pool": 0, "chunked": 0}
     last_log = ""
@@ -926,6 +929,29 @@ def run(ctx):
     whole_stage(ctx)
 
 
+def _replay_whole(ctx, inp, mode, sig, W):
+    res = W.run_config(inp["cfg"], debug=mode["debug"], processes=mode["processes"], trace=False)
+    try:
+
+        if res.rc != 0:
+            print("replay: the stored configuration crashes in the stored mode:\n" + res.log[-800:])
+            if not mode["debug"] and crash_depends_on_schedule(inp["cfg"]):
+                print("replay: ... and completes in debug mode: C01:crash-depends-on-schedule")
+                print("replay:", "still fails" if sig in (None, "C01:crash-depends-on-schedule") else "fails differently")
+                return 1
+            return 2
+        raised = []
+        for sim in range(res.n_sims):
+            raised += judge_simulation(ctx, res, inp["cfg"], mode, sim, record=False)
+        print("replay: re-ran the stored configuration (debug=%s, processes=%s, %d simulation(s)); oracle raised: %s"
+              % (mode["debug"], mode["processes"], res.n_sims, sorted(set(raised)) or "nothing"))
+        still = (sig in raised) if sig else bool(raised)
+        print("replay:", "still fails" if still else "no longer fails")
+        return 1 if still else 0
+    finally:
+        res.cleanup()
+
+
 def replay(ctx, data):
     """re-executes the stored input (the configuration with harness/wholerun.py in the stored mode, or the
     stored source / object case) and re-evaluates the oracle; exit 1 iff it still fails"""
@@ -936,25 +962,14 @@ def replay(ctx, data):
         from harness import wholerun as W
 
         mode = inp["mode"]
-        res = W.run_config(inp["cfg"], debug=mode["debug"], processes=mode["processes"], trace=False)
-        try:
-            if res.rc != 0:
-                print("replay: the stored configuration crashes in the stored mode:\n" + res.log[-800:])
-                if not mode["debug"] and crash_depends_on_schedule(inp["cfg"]):
-                    print("replay: ... and completes in debug mode: C01:crash-depends-on-schedule")
-                    print("replay:", "still fails" if sig in (None, "C01:crash-depends-on-schedule") else "fails differently")
-                    return 1
-                return 2
-            raised = []
-            for sim in range(res.n_sims):
-                raised += judge_simulation(ctx, res, inp["cfg"], mode, sim, record=False)
-            print("replay: re-ran the stored configuration (debug=%s, processes=%s, %d simulation(s)); oracle raised: %s"
-                  % (mode["debug"], mode["processes"], res.n_sims, sorted(set(raised)) or "nothing"))
-            still = (sig in raised) if sig else bool(raised)
-            print("replay:", "still fails" if still else "no longer fails")
-            return 1 if still else 0
-        finally:
-            res.cleanup()
+        # the generator seeds are drawn afresh for every input directory: a failure that needs a rare emission
+        # (e.g. one that began exactly `duration` days before the period) may need more than one scenario
+        for attempt in range(3):
+            rc = _replay_whole(ctx, inp, mode, sig, W)
+            if rc != 0:
+                return rc
+            print("replay: attempt %d did not fail%s" % (attempt + 1, "; drawing another scenario" if attempt < 2 else ""))
+        return 0
     if "starts" in inp:
         impl, days = source_case(inp["n"], inp["starts"])
         raised = source_oracle(inp["n"], inp["starts"], days)
